@@ -33,8 +33,23 @@ def case_decode(fn, n):
     return f
 
 
-def K(name, harness=None, cap=600, tier="q", **kw):
-    d = {"name": name, "engine": "kani", "harness": harness or name, "cap": cap, "tier": tier}
+PANIC = ("--no-assertion-reach-checks",)
+FUNC = ("--no-memory-safety-checks", "--no-overflow-checks", "--no-assertion-reach-checks")
+# per-loop unwind bounds, matched against the *current* goto binary's loop list
+# (function-name substring -> bound); the harness attribute gives the small default
+RULES = [("strobe_rs::", 66), ("byteorder::", 26), ("keccak::f1600", 73), ("=memcmp.0", 70),
+         ("index_range::IndexRange", 66), ("array::iter", 66), ("zip::", 26), ("ct_eq", 26), ("zeroize::Zeroize>::zeroize", 66),
+         ("pow_inv", 6), ("RetryRng", 4), ("random_polynomial", 260), ("Evaluator::gen", 5),
+         ("c04::", 140), ("c06::", 30), ("c08::", 140), ("c09::", 140), ("c16::", 140), ("c16b::", 140), ("c05::", 140),
+         ("c02::", 140), ("c03::", 140), ("c01::", 140), ("c17::", 140), ("stubs::", 140), ("verif_kani::", 140)]
+
+
+RULES_LONG = [("strobe_rs::", 172)] + RULES
+
+
+def K(name, harness=None, cap=600, tier="q", mode="func", **kw):
+    d = {"name": name, "engine": "kani", "harness": harness or name, "cap": cap, "tier": tier,
+         "extra": FUNC if mode == "func" else PANIC, "unwindset": RULES, "mem": 12}
     d.update(kw)
     return d
 
@@ -42,7 +57,7 @@ def K(name, harness=None, cap=600, tier="q", **kw):
 def c09(tier, seed):
     obs = []
     dec_stubs = ["barrier_noop", "fp_from_repr_spec"]
-    obs.append(K("c09::c09_load_helpers", cap=300, claim="adss::load_u32 / load_bytes / AccessStructure::from_bytes never panic; load_bytes result lies inside the buffer",
+    obs.append(K("c09::c09_load_helpers", cap=300, mode="panic", claim="adss::load_u32 / load_bytes / AccessStructure::from_bytes never panic; load_bytes result lies inside the buffer",
                  bounds="every buffer length 0..=12 (symbolic length), every byte content, header = any u32",
                  functions=["adss::load_u32", "adss::load_bytes", "adss::AccessStructure::from_bytes"],
                  stubs=["barrier_noop"],
@@ -50,7 +65,7 @@ def c09(tier, seed):
                  to_case=lambda o, info: (lambda b: [{"kind": "panic_decode", "fn": "adss::load_bytes", "bytes": b[:min(12, int.from_bytes(b[12:20], "little"))].hex()}] if b and len(b) >= 20 else [])(flat_bytes(info))))
     q_sharks = [0, 24, 48]
     for n in [0, 23, 24, 25, 47, 48, 72]:
-        obs.append(K("c09::c09_sharks_try_from_%d" % n, cap=400, tier="q" if n in q_sharks else "t",
+        obs.append(K("c09::c09_sharks_try_from_%d" % n, cap=400, mode="panic", tier="q" if n in q_sharks else "t",
                      must_cover=["accepted"] if n >= 24 else [] + ["rejected"],
                      claim="star_sharks::Share::try_from never panics",
                      bounds="all 2^(8*%d) byte strings of length %d" % (n, n),
@@ -58,7 +73,7 @@ def c09(tier, seed):
                      to_case=case_decode("star_sharks::Share::try_from", n)))
     q_share = [0, 3, 8, 104]
     for n in [0, 3, 4, 7, 8, 16, 79, 80, 103, 104, 108, 128]:
-        obs.append(K("c09::c09_share_from_bytes_%d" % n, cap=(600, 1500), tier="q" if n in q_share else "t",
+        obs.append(K("c09::c09_share_from_bytes_%d" % n, cap=(600, 1500), mode="panic", tier="q" if n in q_share else "t",
                      must_cover=(["accepted"] if n >= 104 else []) + ["rejected"],
                      claim="sta_rs::Share::from_bytes / adss::Share::from_bytes never panic (inner length headers symbolic: truncation, inconsistent and huge headers included)",
                      bounds="all byte strings of length %d" % n,
@@ -66,7 +81,7 @@ def c09(tier, seed):
                      stubs=dec_stubs, to_case=case_decode("sta_rs::Share::from_bytes", n)))
     q_msg = [0, 4, 12, 116]
     for n in [0, 3, 4, 8, 11, 12, 115, 116, 120]:
-        obs.append(K("c09::c09_message_from_bytes_%d" % n, cap=(600, 1500), tier="q" if n in q_msg else "t",
+        obs.append(K("c09::c09_message_from_bytes_%d" % n, cap=(600, 1500), mode="panic", tier="q" if n in q_msg else "t",
                      must_cover=(["accepted"] if n >= 116 else []) + ["rejected"],
                      claim="sta_rs::Message::from_bytes never panics",
                      bounds="all byte strings of length %d" % n,
@@ -126,7 +141,313 @@ def c07(tier, seed):
     }
 
 
-TABLE = {"C09": c09, "C07": c07}
+SF = ["barrier_noop", "sf_*: field operations replaced by arithmetic in GF(13) (formula-level harnesses; 129-bit arithmetic is C07)",
+      "fp_from_repr_spec", "is_valid stub: the acceptance test of Fp::random is assumed to pass (one pass of the rejection loop)"]
+
+
+def c06(tier, seed):
+    obs = []
+    for h, q, claim in [
+        ("c06_dealer_k1_t1", "q", "t=1: no draw, share value = secret"),
+        ("c06_dealer_k1_t2", "q", "t=2: one draw d, value at x is d*x+s"),
+        ("c06_dealer_k1_t3", "q", "t=3: draws d0,d1 in order, value (d0*x+d1)*x+s"),
+        ("c06_dealer_k1_tail23_t2", "q", "23 trailing secret bytes are ignored"),
+        ("c06_dealer_k2_t2", "q", "two secret elements: two independent polynomials, draws in order"),
+        ("c06_dealer_k0_tail23", "q", "a secret shorter than one element: no polynomial, no randomness used"),
+    ]:
+        obs.append(K("c06::" + h, tier=q, cap=300, must_cover=["reached"],
+                     claim="dealing: polynomials of exactly t coefficients, constant term = secret element, every other coefficient a separate draw (3 words each) of the supplied source; sequential iterator yields x = 1,2,3 on them (Horner reference). " + claim,
+                     bounds="k <= 2 secret elements, t <= 3, every secret value / draw in GF(13)", stubs=SF,
+                     functions=["Sharks::dealer_rng", "random_polynomial", "get_evaluator", "Evaluator::next", "Evaluator::evaluate"]))
+    obs.append(K("c06::c06_dealer_range_t1", cap=300, must_cover=["accepted", "refused"],
+                 claim="a secret containing an element not below the modulus is refused, never altered; in-range secrets are accepted",
+                 bounds="all 48-byte secrets", stubs=["barrier_noop", "fp_from_repr_spec"], functions=["Sharks::dealer_rng"]))
+    obs.append(K("c06::c06_gen_nonzero", cap=600, must_cover=["resampled twice", "resampled once", "accepted at once"],
+                 claim="Evaluator::gen: the share point is the accepted draw of the supplied source, never 0, and the value is the polynomial at that point",
+                 bounds="at most two resamples (third candidate assumed non-zero)", stubs=SF, functions=["Evaluator::gen", "Evaluator::evaluate"]))
+    obs.append(K("c06::c06_interpolate_t2", cap=300, must_cover=["reached"],
+                 claim="interpolate == textbook Lagrange value at 0 (reference model in the harness) for all distinct points and all values",
+                 bounds="t = 2, GF(13)", stubs=SF, functions=["interpolate"]))
+    obs.append(K("c06::c06_interpolate_t3", cap=600, tier="q", must_cover=["reached"],
+                 claim="interpolate == textbook Lagrange value at 0 for all distinct points and all values",
+                 bounds="t = 3, GF(13)", stubs=SF, functions=["interpolate"]))
+    for h in ("c06_dealer_t256", "c06_dealer_t257"):
+        obs.append(K("c06::" + h, tier="t", cap=1800, must_cover=["reached"],
+                     claim="exactly t-1 coefficient draws also where a narrowed counter would wrap", bounds="t = 256 / 257", stubs=SF,
+                     functions=["random_polynomial", "Sharks::dealer_rng"]))
+    obs.append(M("mir::recover-structure",
+                 "Sharks::recover (symbolic execution of its MIR, std containers modelled): unequal lengths refused; refused iff fewer than t distinct points; otherwise interpolate is applied to exactly the first t shares with pairwise distinct points in input order (so order, duplicates and surplus do not matter); no index-out-of-bounds reachable",
+                 bounds="n <= 3 (quick) / 4 (thorough) shares, every length pattern with one deviating share, thresholds {0..n+1, 2^32-1}, points = arbitrary 192-bit limb triples",
+                 functions=["Sharks::recover"]))
+    obs.append(M("mir::recover-vectors",
+                 "native Sharks::recover + interpolate agree with a Python big-integer model of textbook Shamir on every point pattern over {0,1,2,3}^n, n <= 4, thresholds 0..4 (concrete cross-check; also the source of replayable counterexamples)",
+                 bounds="concrete enumeration, values seeded"))
+    return {
+        "obligations": obs,
+        "level": "model_checking",
+        "bounds": "t <= 3, k <= 2 for dealing; n <= 4 shares for recovery; field values in GF(13) for formula-level harnesses",
+        "outside": "thresholds > 3 for dealing (property says 1..600), secrets of more than 2 elements, 129-bit end-to-end equivalence (obtained per operation by C07 and per formula here), Fp::random's distribution and its unbounded retry loop",
+        "assumptions": ["field operations replaced by GF(13) arithmetic in formula-level harnesses; soundness of transferring the formula to the 129-bit field rests on C07 (each operation is the field operation) and on the formulas being low-degree rational functions",
+                        "std BTreeSet/Vec/Option semantics modelled by hand in the MIR interpreter (BTreeSet is beyond CBMC's reach here)"],
+        "trusted_base": ["Kani 0.68 / CBMC 6.11", "/verif/mirsmt interpreter + z3/cvc5", "reference models written in the harness crate / checker"],
+        "explanation": "Kani harnesses compare the real dealing/evaluation/interpolation code with reference formulas over all inputs of a small field; Sharks::recover's selection logic is decided from its MIR for symbolic points",
+    }
+
+
+def c08(tier, seed):
+    obs = []
+    dec = ["barrier_noop", "fp_from_repr_spec", "fp_to_repr_spec", "Drop impls of sta_rs::Share / adss::AccessStructure (zeroisation only) -> no-op"]
+    for n, q in [(23, "q"), (24, "q"), (47, "t"), (48, "q"), (50, "q"), (72, "q")]:
+        obs.append(K("c08::c08_sharks_accept_%d" % n, tier=q, cap=300, must_cover=(["accepted"] if n >= 24 else []) + ["rejected"],
+                     claim="star_sharks::Share::try_from accepts exactly the byte strings the independent layout parser accepts (>= 24 bytes, every whole 24-byte element canonical); number of elements agrees",
+                     bounds="all byte strings of length %d" % n, stubs=dec, functions=["star_sharks::Share::try_from"]))
+    for n, q in [(24, "q"), (47, "t"), (48, "q"), (50, "q"), (72, "t")]:
+        obs.append(K("c08::c08_sharks_canon_%d" % n, tier=q, cap=300, must_cover=["accepted"],
+                     claim="re-encoding of any accepted Shamir share is the canonical form of the input: whole 24-byte little-endian elements unchanged, ignored tail dropped",
+                     bounds="all byte strings of length %d" % n, stubs=dec, functions=["star_sharks::Share::try_from", "From<&Share> for Vec<u8>"]))
+    for n, q in [(8, "q"), (103, "t"), (104, "q"), (106, "t"), (128, "q"), (130, "t")]:
+        obs.append(K("c08::c08_share_accept_%d" % n, tier=q, cap=600, must_cover=(["accepted"] if n >= 104 else []) + ["rejected"],
+                     claim="sta_rs/adss Share::from_bytes accepts exactly what the independent parser of the documented layout accepts (truncation, inconsistent/huge length prefixes, non-canonical elements all inside the query)",
+                     bounds="all byte strings of length %d, length prefixes symbolic" % n, stubs=dec,
+                     functions=["adss::Share::from_bytes", "adss::load_bytes", "star_sharks::Share::try_from"]))
+    for n, q in [(12, "q"), (115, "t"), (116, "q"), (120, "t"), (144, "t")]:
+        obs.append(K("c08::c08_message_accept_%d" % n, tier=q, cap=900, mem=16, must_cover=(["accepted"] if n >= 116 else []) + ["rejected"],
+                     claim="sta_rs::Message::from_bytes accepts exactly what the independent parser accepts (ciphertext/share/tag chunks, trailing bytes ignored)",
+                     bounds="all byte strings of length %d" % n, stubs=dec, functions=["sta_rs::Message::from_bytes"]))
+    obs.append(K("c08::c08_load_bytes_ref_big", cap=300, must_cover=["chunk longer than 64 KiB", "chunk of 256 bytes"],
+                 claim="adss::load_bytes / load_u32 agree with the reference chunk parser (4-byte little-endian length, data right after it)",
+                 bounds="every buffer length 0..=70000 and every header value (so every byte of the length prefix matters)", functions=["adss::load_bytes", "adss::load_u32"]))
+    for n in (0, 255, 256, 300):
+        obs.append(K("c08::c08_store_bytes_%d" % n, tier="q" if n in (0, 256) else "t", cap=300, extra=FUNC,
+                     claim="store_bytes writes a 4-byte little-endian length then the data; load_bytes inverts it",
+                     bounds="all chunks of %d bytes" % n, functions=["adss::store_bytes", "adss::store_u32", "adss::load_bytes"]))
+    adss_st = dec + ["f1600_ro: Keccak-f as collision-free random oracle", "OsRng -> arbitrary words", "is_valid stub (one pass of Fp::random)", "field mul/invert by the C07 field laws"]
+    for h, q in [("c08_honest_roundtrip_1_1", "q"), ("c08_honest_roundtrip_4_0", "t")]:
+        obs.append(K("c16::" + h, tier=q, cap=900, mem=30, must_cover=["reached"],
+                     claim="an honestly generated ADSS share encodes as A(4 LE)|len|x(24)|y(24)|len|C|len|D|J(64) and decode(encode(v)) == v",
+                     bounds="message/coins lengths per harness name, threshold 1 or 2, all contents", stubs=adss_st,
+                     functions=["adss::Commune::share", "adss::Share::to_bytes", "adss::Share::from_bytes"]))
+    return {
+        "obligations": obs,
+        "level": "model_checking",
+        "bounds": "byte strings of the listed lengths (<= 144 bytes; chunk helpers up to 70000 bytes)",
+        "outside": "canonical re-encoding of *arbitrary accepted* adss/sta_rs encodings (decode->encode of heap data exceeded 30 GB in CBMC; covered instead by: accept/reject agreement, the Shamir-level canonical form, and round trip of honestly generated shares); payloads > 144 bytes; ppoprf encodings (C15)",
+        "assumptions": ["Fp::from_repr / to_repr replaced by their C07-proved specification (canonical little-endian bijection)"],
+        "trusted_base": ["Kani 0.68 / CBMC 6.11", "the 60-line reference parser in /verif/kani/src/c08.rs"],
+        "explanation": "differential harnesses: real decoders vs an independent parser of the documented layout over all byte strings of each length",
+    }
+
+
+def lay(info, layout):
+    """split the concrete kani::any() bytes of the failing trace by a harness' input layout
+    [(name, nbytes)]: the inputs are drawn first, in this order, before any stub value"""
+    b = flat_bytes(info)
+    if b is None:
+        return None
+    out, o = {}, 0
+    for name, n in layout:
+        if o + n > len(b):
+            return None
+        out[name] = b[o:o + n]
+        o += n
+    return out
+
+
+STROBE = ["f1600_ro: Keccak-f[1600] as a collision-free random oracle (memo table over all calls; fresh outputs differ from all earlier ones in their first 16 bytes)",
+          "byteorder 200-byte<->25-lane conversions written loop-free", "barrier_noop", "Strobe / MessageGenerator / SingleMeasurement / Commune / AccessStructure / sta_rs::Share Drop impls (zeroisation only) -> no-op"]
+ADSS = STROBE + ["OsRng::next_u64 -> arbitrary words, counted (first word of a candidate non-zero: no resample)",
+                 "Fp::is_valid stub: exact predicate, except that the acceptance test of Fp::random is assumed to pass (one pass of the rejection loop)",
+                 "fp_from_repr_spec / fp_to_repr_spec (C07)", "Fp mul / invert by the C07-proved field laws (0, 1 exact; other products arbitrary non-zero)"]
+
+
+def c04(tier, seed):
+    obs = []
+    quick_shapes = {(1, 1, 1, 1), (2, 1, 1, 2), (0, 0, 0, 0), (0, 1, 1, 0), (1, 0, 0, 1), (2, 0, 1, 1)}
+    for a in range(3):
+        for b in range(3):
+            for c in range(3):
+                for d in range(3):
+                    sh = (a, b, c, d)
+                    def tc(o, info, sh=sh):
+                        v = lay(info, [("m1", sh[0]), ("e1", sh[1]), ("t1", 4), ("m2", sh[2]), ("e2", sh[3]), ("t2", 4)])
+                        if not v:
+                            return []
+                        return [{"kind": "c04_triples", "m1": v["m1"].hex(), "e1": v["e1"].hex(), "t1": int.from_bytes(v["t1"], "little"),
+                                 "m2": v["m2"].hex(), "e2": v["e2"].hex(), "t2": int.from_bytes(v["t2"], "little")}]
+                    obs.append(K("c04::c04_inject_%d_%d_%d_%d" % sh, tier="q" if sh in quick_shapes else "t", cap=400, must_cover=[],
+                                 claim="sample_local_randomness: the 32-byte randomness of two (measurement, epoch, threshold) triples is equal iff the triples are equal (boundary-shifted pairs, empty components, thresholds differing in any bit included)",
+                                 bounds="|m1|=%d |e1|=%d |m2|=%d |e2|=%d, all contents, all u32 thresholds" % sh, stubs=STROBE,
+                                 functions=["MessageGenerator::sample_local_randomness", "strobe_digest", "StrobeRng", "strobe_rs::Strobe"], to_case=tc))
+    for sh in ((1, 1, 1, 1), (2, 1, 1, 2), (0, 0, 0, 0)):
+        obs.append(K("c04::c04_inject_%d_%d_%d_%d_w" % sh, tier="t", cap=900, must_cover=(["equal triples reachable"] if sh[0] == sh[2] else []) + ["different triples reachable"],
+                     claim="vacuity witness of the inject harness (both outcome classes reachable)", bounds="same shape", stubs=STROBE))
+    for e1, e2 in ((1, 1), (0, 1), (2, 1)):
+        def tc(o, info, e1=e1, e2=e2):
+            v = lay(info, [("r1", 32), ("r2", 32), ("e1", 2), ("e2", 2)])
+            return [{"kind": "c04_ske", "r1": v["r1"].hex(), "r2": v["r2"].hex(), "e1": v["e1"][:e1].hex(), "e2": v["e2"][:e2].hex()}] if v else []
+        obs.append(K("c03::c04_ske_sep_%d_%d" % (e1, e2), cap=400, must_cover=(["equal"] if e1 == e2 else []) + ["different"],
+                     claim="derive_ske_key(r, epoch): keys equal iff (r, epoch) equal — a different epoch never yields the clients' key",
+                     bounds="|epoch| = %d / %d, all contents" % (e1, e2), stubs=STROBE, functions=["derive_ske_key", "strobe_digest"], to_case=tc))
+    def tcd(o, info):
+        v = lay(info, [("k1", 32), ("k2", 32), ("a1", 1), ("a2", 1)])
+        return [{"kind": "c04_digest", "k1": v["k1"].hex(), "k2": v["k2"].hex(), "a1": v["a1"][0], "a2": v["a2"][0]}] if v else []
+    obs.append(K("c03::c04_digest_sep", cap=400, must_cover=["equal", "different"],
+                 claim="the labelled PRF of derive_random_values (strobe_digest(rnd, [i])) gives equal outputs iff (rnd, i) equal: key seed, coins and tag are separated",
+                 bounds="32-byte keys, 1-byte label, all contents", stubs=STROBE, functions=["strobe_digest"], to_case=tcd))
+    for h, q in (("c16_structure_m1_r1_t1", "q"), ("c16_structure_m4_r4_t2", "q")):
+        obs.append(K("c16b::" + h, tier=q, cap=600, must_cover=["reached"],
+                     claim="every share draws its own evaluation point from the OS RNG *after* everything else of the share was computed (so tag/key/C/D/J/polynomial do not depend on it); t-1 coefficients come from the transcript RNG",
+                     bounds="see C16", stubs=ADSS, functions=["adss::Commune::share"]))
+    return {
+        "obligations": obs, "level": "model_checking",
+        "bounds": "measurement/epoch components of 0..2 bytes (all 81 shape combinations in thorough), any u32 threshold; 32-byte randomness",
+        "outside": "components longer than 2 bytes (only more absorbed rate bytes); the glue `share_with_local_randomness` -> (tag = r2, key = ske(r0, epoch), share = ADSS(t, r0, r1)) is checked only through C01's end-to-end recovery harness and by reading; probability-2^-129 coincidence of two OS-drawn points",
+        "assumptions": ["Keccak-f[1600] behaves as a collision-free random oracle (ideal permutation, no truncated collisions): the cryptographic assumption of every 'equal iff' claim"],
+        "trusted_base": ["Kani 0.68 / CBMC 6.11", "strobe-rs 0.10 real code (only keccak::f1600 is replaced)"],
+        "explanation": "two-run harnesses over the real Strobe framing with the permutation as a memoising random oracle: the solver decides 'outputs equal iff inputs equal' for all contents of each shape",
+    }
+
+
+def adss_case(o, info, layout, **kw):
+    v = lay(info, layout)
+    if not v:
+        return []
+    c = {"kind": "adss_scenario"}
+    c.update(kw)
+    for k, b in v.items():
+        c[k] = b.hex()
+    return [c]
+
+
+def c16(tier, seed):
+    obs = []
+    for h, (ml, rl, t), q in (("c16_structure_m1_r1_t1", (1, 1, 1), "q"), ("c16_structure_m4_r4_t2", (4, 4, 2), "q"),
+                              ("c16_structure_m0_r0_t1", (0, 0, 1), "q"), ("c16_structure_m4_r0_t3", (4, 0, 3), "t")):
+        def tc(o, info, ml=ml, rl=rl, t=t):
+            v = lay(info, [("m", 8), ("r", 8)])
+            return [{"kind": "adss_scenario", "m": v["m"][:ml].hex(), "r": v["r"][:rl].hex(), "t": t, "n_shares": t, "expect_ok": True}] if v else []
+        obs.append(K("c16b::" + h, tier=q, cap=600, must_cover=["reached"],
+                     claim="share(): everything except the point and the values at it is computed before the single OS draw, hence a deterministic function of (threshold, message, coins); exactly t-1 coefficient draws from the transcript-seeded RNG; J = MAC output over (A, M, R), C = M xor keystream(K), D = R xor keystream(K, C); for t = 1 the value is K||0",
+                     bounds="|M|=%d |R|=%d t=%d, all contents" % (ml, rl, t), stubs=ADSS, functions=["adss::Commune::share", "adss::Share::to_bytes", "StrobeRng", "Sharks::dealer_rng", "Evaluator::gen"], to_case=tc))
+    for h, (ml, rl), q in (("c16_recover_t1_m1_r1", (1, 1), "t"), ("c16_recover_t1_m4_r0", (4, 0), "t"), ("c16_recover_t1_m0_r4", (0, 4), "t")):
+        def tc(o, info, ml=ml, rl=rl):
+            v = lay(info, [("m", 8), ("r", 8)])
+            return [{"kind": "adss_scenario", "m": v["m"][:ml].hex(), "r": v["r"][:rl].hex(), "t": 1, "n_shares": 1, "expect_ok": True}] if v else []
+        obs.append(K("c16b::" + h, tier=q, cap=2400, mem=50, must_cover=["reached"],
+                     claim="threshold 1: share -> recover returns exactly the message (decrypt with the interpolated key, MAC re-verified)",
+                     bounds="|M|=%d |R|=%d" % (ml, rl), stubs=ADSS + ["Sharks::recover by its Engine-M-proved selection model (BTreeSet is beyond CBMC)"],
+                     functions=["adss::recover", "adss::Commune::verify", "interpolate"], to_case=tc))
+    obs.append(K("c16b::c16_custom_transcript_rejected", tier="t", cap=2400, mem=50, must_cover=["reached"],
+                 claim="a share created under a different authenticated transcript is rejected by recover",
+                 bounds="|M|=|R|=2, t=1", stubs=ADSS, functions=["adss::recover"],
+                 to_case=lambda o, info: adss_case(o, info, [("m", 2), ("r", 2)], t=1, n_shares=1, custom_transcript=True)))
+    obs.append(K("c16b::c16_threshold_zero", tier="q", cap=900, must_cover=["reached"],
+                 claim="threshold 0 never recovers (refused before any decryption)", bounds="|M|=|R|=2", stubs=ADSS, functions=["adss::recover", "interpolate"],
+                 to_case=lambda o, info: adss_case(o, info, [("m", 2)], t=0, n_shares=1)))
+    obs.append(M("mir::recover-structure", "Sharks::recover selection logic (see C06): any t shares with distinct points are what interpolation receives, independent of order/duplicates/surplus",
+                 bounds="n <= 3/4, symbolic points"))
+    return {
+        "obligations": obs, "level": "model_checking",
+        "bounds": "message / coins of 0..4 bytes, thresholds 0..3",
+        "outside": "message/coin lengths > 4 (in particular the 166-byte rate boundary and 100 kB); thresholds > 3; t >= 2 recovery end-to-end at 129 bits (composition of: all shares lie on one polynomial [structure harness] + C06 interpolation + C07 field); custom transcripts other than one fresh Strobe",
+        "assumptions": ["Keccak-f as collision-free random oracle", "C07 field laws for the stubs of mul/invert/from_repr/to_repr"],
+        "trusted_base": ["Kani 0.68 / CBMC 6.11", "strobe-rs real code"],
+        "explanation": "single-sharing harnesses over the real adss code; the permutation log makes 'deterministic up to the share point' and the masking/MAC structure decidable",
+    }
+
+
+def c05(tier, seed):
+    obs = []
+    fields = [("threshold", 0, 4, True, "q"), ("x", 8, 32, False, "t"), ("y", 32, 56, False, "t"), ("c", 60, 62, True, "t"), ("d", 66, 68, True, "t"), ("j", 68, 132, True, "t")]
+    for name, lo, hi, rej, q in fields:
+        def tc(o, info, lo=lo, hi=hi, rej=rej):
+            v = lay(info, [("m", 2), ("r", 2), ("nbs", 64)])
+            return [{"kind": "adss_scenario", "m": v["m"].hex(), "r": v["r"].hex(), "t": 1, "n_shares": 1, "fault_lo": lo, "fault_hi": hi,
+                     "fault_bytes": v["nbs"][:hi - lo].hex(), "must_reject": rej}] if v else []
+        obs.append(K("c16b::c05_fault_" + name, tier=q, cap=2400, mem=50, must_cover=["rejected"],
+                     claim="the %s field of the ciphertext-supplying share replaced by arbitrary different content: recovery returns an error%s" % (name, "" if rej else " or exactly the shared message"),
+                     bounds="honest threshold-1 sharing of 2-byte message and coins; the whole field arbitrary (subsumes every bit/byte fault)", stubs=ADSS,
+                     functions=["adss::recover", "adss::Commune::verify", "adss::Share::from_bytes"], to_case=tc))
+    obs.append(K("c16b::c05_any_interpolated_key", tier="q", cap=2400, mem=50, must_cover=["rejected"],
+                 claim="whatever key the Shamir layer hands back (any mixture of foreign, altered, repeated, surplus points): the result is an error or exactly the message of the first share's sharing",
+                 bounds="honest threshold-2 sharing of 2-byte message/coins; interpolated key = arbitrary 24 bytes or error", stubs=ADSS + ["Sharks::recover -> arbitrary Ok(24 bytes) / Err"],
+                 functions=["adss::recover", "adss::Commune::verify"],
+                 to_case=lambda o, info: adss_case(o, info, [("m", 2), ("r", 2)], t=2, n_shares=2, expect_ok=True)))
+    return {
+        "obligations": obs, "level": "model_checking",
+        "bounds": "2-byte message and coins, thresholds 1-2, one altered field per query (whole field arbitrary)",
+        "outside": "longer messages; simultaneous alteration of several fields (subsumed for the key path by the arbitrary-key harness); forgeries that need a permutation collision",
+        "assumptions": ["Keccak-f as collision-free random oracle: an adversarially chosen J equals a fresh MAC output only by collision"],
+        "trusted_base": ["Kani 0.68 / CBMC 6.11"],
+        "explanation": "fault model: the solver chooses the replacement content of one field / the interpolated key; assertion: Err or the original message",
+    }
+
+
+def c02(tier, seed):
+    obs = []
+    obs.append(M("mir::recover-structure", "counting gate: Sharks::recover refuses iff fewer than t distinct points (duplicates do not count, any order), from its MIR with symbolic points",
+                 bounds="n <= 3/4 shares, thresholds 0..n+1 and 2^32-1"))
+    obs.append(M("mir::recover-vectors", "native cross-check of the gate on every point pattern over {0..3}^n", bounds="concrete"))
+    obs.append(K("c16b::c02_gate_repeated_share", tier="q", cap=1800, mem=50, must_cover=["reached"],
+                 claim="adss::recover propagates the refusal before any decryption: one share repeated under threshold 2 never recovers",
+                 bounds="2-byte message", stubs=ADSS, functions=["adss::recover"],
+                 to_case=lambda o, info: adss_case(o, info, [("m", 2)], t=2, n_shares=1)))
+    for h in ("c16_structure_m1_r1_t1", "c16_structure_m4_r4_t2"):
+        obs.append(K("c16b::" + h, tier="q", cap=600, must_cover=["reached"],
+                     claim="structural non-disclosure of one share: every byte of the encoded share is a public length/threshold, the OS-drawn point, a polynomial value, M xor keystream, R xor keystream' or the MAC output; K, M, R never appear as such (t >= 2); polynomial has exactly t-1 separately drawn coefficients",
+                     bounds="see C16", stubs=ADSS, functions=["adss::Commune::share"]))
+    obs.append(K("c16b::c05_fault_threshold", tier="t", cap=2400, mem=50, must_cover=["rejected"],
+                 claim="a rewritten threshold (any other value) is always rejected: the threshold is bound by the MAC", bounds="see C05", stubs=ADSS))
+    for h in ("c06_dealer_t256", "c06_dealer_t257"):
+        obs.append(K("c06::" + h, tier="t", cap=1800, must_cover=["reached"],
+                     claim="degree is exactly t-1 also for thresholds beyond one byte: t-1 coefficient draws", bounds="t = 256 / 257", stubs=SF))
+    return {
+        "obligations": obs, "level": "model_checking",
+        "bounds": "n <= 4 shares, thresholds <= 4 (and 256/257 for the draw count), 2-byte messages",
+        "outside": "the statistical clauses (coefficients non-zero, pairwise distinct, different between measurements; t-1 points reveal nothing) are probabilistic / information-theoretic and are not decided by a solver: each coefficient is shown to be a separate draw; the report-level scan of Message::to_bytes (tag, ciphertext) is covered by C03's masking harness and C04's separation harnesses",
+        "assumptions": ["Keccak-f as collision-free random oracle"],
+        "trusted_base": ["Kani / CBMC", "/verif/mirsmt"],
+        "explanation": "structural decision of the counting gate (MIR), MAC binding of the threshold and the masking structure of a share",
+    }
+
+
+def c03(tier, seed):
+    obs = []
+    def tcm(n):
+        def f(o, info):
+            v = lay(info, [("key", 16), ("data", 12 if n <= 12 else 170)])
+            return [{"kind": "c03_masking", "key": v["key"].hex(), "data": v["data"][:n].hex()}] if v else []
+        return f
+    obs.append(K("c03::c03_masking_12", cap=400, must_cover=["reached"],
+                 claim="Ciphertext::new: every ciphertext byte is payload xor keystream(key) (never the payload itself), length = payload length, decrypt inverts it",
+                 bounds="16-byte key, 12-byte payload, all contents", stubs=STROBE, functions=["Ciphertext::new", "Ciphertext::decrypt"], to_case=tcm(12)))
+    obs.append(K("c03::c03_masking_1", tier="t", cap=400, must_cover=["reached"], claim="as above", bounds="1-byte payload", stubs=STROBE, to_case=tcm(1)))
+    obs.append(K("c03::c03_masking_170", tier="q", cap=900, must_cover=["second block"],
+                 claim="payload spanning two 166-byte rate blocks: every byte masked, also past the block boundary",
+                 bounds="170-byte payload, arbitrary position", stubs=STROBE, functions=["Ciphertext::new"], to_case=tcm(170), unwindset=RULES_LONG))
+    def tcr(o, info):
+        v = lay(info, [("key", 16), ("d1", 6), ("d2", 6)])
+        if not v:
+            return []
+        return [{"kind": "c03_reuse", "m": "6d", "e": "65", "t": 2, "aux1": v["d1"].hex(), "aux2": v["d2"].hex()}]
+    obs.append(K("c03::c03_keystream_reuse", cap=400, must_cover=[],
+                 claim="two payloads under the key of one measurement: the ciphertext difference must not equal the plaintext difference (fails: D7, known finding)",
+                 bounds="6-byte payloads", stubs=STROBE, functions=["Ciphertext::new", "Message::generate (native replay)"], to_case=tcr,
+                 known_role="keystream-reuse-first-block"))
+    for e1, e2 in ((1, 1),):
+        obs.append(K("c03::c04_ske_sep_%d_%d" % (e1, e2), cap=400, must_cover=["equal", "different"],
+                     claim="the payload key is derive_ske_key(r0, epoch): a function of secret r0 (not carried in the report: r0 only appears as C = r0 xor keystream(K))", bounds="see C04", stubs=STROBE))
+    return {
+        "obligations": obs, "level": "model_checking",
+        "bounds": "payloads of 1, 12 and 170 bytes",
+        "outside": "report-level composition (Message::generate = digests + ADSS share + Ciphertext::new under derive_ske_key(r0, epoch)) is by reading plus C01/C04; 'cannot be decrypted with any value carried in the report' is the key-secrecy argument of C02/C16 (K and r0 never in clear), not a solver query",
+        "assumptions": ["Keccak-f as collision-free random oracle"],
+        "trusted_base": ["Kani / CBMC"],
+        "explanation": "the permutation log identifies the keystream: masking is decided byte by byte; keystream reuse across reports is reported as the known finding D7",
+    }
+
+
+TABLE = {"C09": c09, "C07": c07, "C06": c06, "C08": c08, "C04": c04, "C16": c16, "C05": c05, "C02": c02, "C03": c03}
 
 
 def get(pid, tier, seed):
@@ -142,12 +463,13 @@ def get(pid, tier, seed):
 
 
 def match_known(known, pid, o, case):
-    """A reproduced violation is a *known finding* only if a listed entry's role
-    matches this obligation and case kind."""
+    """A reproduced violation is a *known finding* only if a listed entry names this
+    property, this obligation's role and this replay-case kind; any other violation of the
+    same property is still reported."""
     for k in known.get("known", []):
         if k.get("property") != pid:
             continue
-        if k.get("obligation") and k["obligation"] != o["name"] and not o["name"].startswith(k["obligation"]):
+        if k.get("role") != o.get("known_role"):
             continue
         if k.get("case_kind") and k["case_kind"] != case.get("kind"):
             continue
